@@ -7,6 +7,13 @@ Three kinds of entries (file, class-or-function scope, member name, declared typ
             namespace-scope variables
   indirect  data members through which `const` does not propagate: owning/raw pointers to non-const, non-const references,
             (vectors of) `std::unique_ptr` aliases (`rsolver_t`, `rlsearch0_t`, ...)
+  holder    data members (by value, reference, pointer or in a std::vector) whose class has `mutable` members, derives from
+            such a class or holds one itself (closed transitively): a const method of the holder reaches the mutable state
+  (a `static const` object is listed as `static` when it is a pointer / smart pointer to non-const: the pointee is shared)
+
+Every entry carries the line of its declaration (`lines` of `scan_full`). Every `static` / `thread_local` keyword of the sources
+must have been CLASSIFIED (variable, constant, function) by the scanner: one that was swallowed inside another statement (a
+scope the brace tracker took for an initialiser) is reported as a problem naming file:line.
 
 This is NOT a C++ parser: comments/strings are stripped, braces are tracked with a small scope stack (namespace / class /
 block / brace-initialiser), statements are split at `;`. What it cannot see is listed in ASSUMPTIONS of c18.py.
@@ -108,6 +115,25 @@ class Scanner:
         self.rel, self.text, self.aliases = rel, text, aliases
         self.entries = []
         self.problems = []
+        self.lines = {}      # entry -> line of the declaration
+        self.members = []    # every data member of every class: (file, scope, name, type, line)
+        self.bases = {}      # class name (last segment) -> base class names (last segments)
+        self.line = 1
+
+    def add(self, entry):
+        self.entries.append(entry)
+        self.lines.setdefault(entry, self.line)
+
+    def unclassified(self, text, line, leading_ok):
+        """every `static` / `thread_local` token of a consumed piece of text must be part of its leading specifiers"""
+        body = text
+        if leading_ok:
+            body = re.sub(r"^\s*((public|private|protected)\s*:\s*)*", "", body)
+            body = strip_template(norm(body))
+            body = re.sub(r"^((?:inline |static |thread_local |constexpr |friend |extern |\[\[\w+\]\] )+)", "", body)
+        for m in re.finditer(r"\b(static|thread_local)\b", body):
+            self.problems.append(f"{self.rel}:{line}: a `{m.group(1)}` keyword inside `{norm(text)[:70]}` was not classified by the "
+                                 f"scanner (scope taken for an initialiser?)")
 
     def scope_name(self, stack):
         names = [s[1] for s in stack if s[0] in ("class", "func") and s[1]]
@@ -120,8 +146,10 @@ class Scanner:
         return "namespace"
 
     def statement(self, stmt, stack):
+        self.unclassified(stmt, self.line, True)
         s = norm(re.sub(r"^\s*((public|private|protected)\s*:\s*)+", "", stmt.strip()))
         s = strip_template(s)
+        s = re.sub(r"^(\[\[\w+\]\] )+", "", s)
         if not s:
             return
         where = self.innermost(stack)
@@ -132,7 +160,8 @@ class Scanner:
         if s.startswith("mutable ") or " mutable " in " " + head + " ":
             m = re.match(r"^(?:inline )?mutable (.+?) ?(\w+)$", head)
             if m and where == "class":
-                self.entries.append(("mutable", self.rel, scope, m.group(2), m.group(1)))
+                self.add(("mutable", self.rel, scope, m.group(2), m.group(1)))
+                self.members.append((self.rel, scope, m.group(2), m.group(1), self.line))
                 return
             if where == "class":
                 self.problems.append(f"{self.rel}: cannot parse mutable declaration `{s[:80]}`")
@@ -141,7 +170,19 @@ class Scanner:
         if m:
             rest = m.group(2)
             rhead = re.split(r"=|\{", rest, 1)[0].strip()
-            if re.match(r"^(constexpr|const)\b", rest) or " constexpr " in " " + rhead + " ":
+            if re.match(r"^constexpr\b", rest) or " constexpr " in " " + rhead + " ":
+                return
+            if re.match(r"^const\b", rest):
+                # a constant: nothing to share — unless it is a (smart) pointer to non-const: the pointee is shared by all threads
+                decl = re.sub(r"^const ", "", re.sub(r"(\[[^\]]*\])+$", "", rhead.split("(")[0].strip()))
+                mm = re.match(r"^(.+?) ?(\w+)$", decl)
+                if mm and (where not in ("class", "namespace") or "(" not in rhead):
+                    ty = mm.group(1)
+                    shared_pointee = (ty.endswith("*") and not re.search(r"\bconst\b", ty[:-1])) or \
+                        (re.match(r"^std::(unique|shared)_ptr<", ty) and not re.match(r"^std::(unique|shared)_ptr<const\b", ty)) or \
+                        ty.split("::")[-1] in self.aliases
+                    if shared_pointee:
+                        self.add(("static", self.rel, scope, mm.group(2), norm(m.group(1) + "const " + ty)))
                 return
             # a function declaration at class/namespace scope has its parameter list before any initialiser
             if where in ("class", "namespace") and "(" in rhead:
@@ -149,7 +190,7 @@ class Scanner:
             rhead = re.sub(r"(\[[^\]]*\])+$", "", rhead.split("(")[0].strip())
             mm = re.match(r"^(.+?) ?(\w+)$", rhead)
             if mm and mm.group(1) not in ("return",):
-                self.entries.append(("static", self.rel, scope, mm.group(2), norm(m.group(1) + mm.group(1))))
+                self.add(("static", self.rel, scope, mm.group(2), norm(m.group(1) + mm.group(1))))
             return
         if where == "namespace":
             # plain non-const variable definitions at namespace scope
@@ -157,7 +198,7 @@ class Scanner:
                 return
             mm = re.match(r"^([\w:<>,\*& ]+?) ?(\w+)$", head)
             if mm and not re.match(r"^(constexpr|const)\b", mm.group(1)) and not mm.group(1).endswith("::"):
-                self.entries.append(("static", self.rel, scope, mm.group(2), norm("global " + mm.group(1))))
+                self.add(("static", self.rel, scope, mm.group(2), norm("global " + mm.group(1))))
             return
         if where == "class":
             if s.startswith(SKIP_START) or "(" in head or "operator" in head:
@@ -166,6 +207,7 @@ class Scanner:
             if not mm:
                 return
             ty, name = mm.group(1).strip(), mm.group(2)
+            self.members.append((self.rel, scope, name, ty, self.line))
             # `T* name` / `T& name`: norm() glued the sigil to the type
             base = ty
             indirect = False
@@ -178,35 +220,58 @@ class Scanner:
             elif base.split("::")[-1] in self.aliases:
                 indirect = True
             if indirect:
-                self.entries.append(("indirect", self.rel, scope, name, ty))
+                self.add(("indirect", self.rel, scope, name, ty))
 
     def run(self):
         t = self.text
         stack = []   # (kind, name)
         buf = []
+        start = None  # line of the first non-blank character of the statement being collected
         i, n = 0, len(t)
+        line = 1
+
+        def reset():
+            nonlocal buf, start
+            buf, start = [], None
+
         while i < n:
             c = t[i]
+            if c == "\n":
+                line += 1
+            if start is None and not c.isspace() and c not in "{};":
+                start = line
+            self.line = start if start is not None else line
             if c == "{":
                 header = "".join(buf)
                 hs = header.strip()
                 prev = re.search(r"(\w+|\S)\s*$", header)
                 prevtok = prev.group(1) if prev else ""
                 in_init = bool(stack) and stack[-1][0] == "init"
-                mcls = re.search(r"\b(class|struct|union)\s+(?:NANO_PUBLIC\s+)?([\w:]+)(?:\s+final)?\s*(?::[^{;]*)?$", hs)
+                mcls = re.search(r"\b(class|struct|union)\s+(?:NANO_PUBLIC\s+)?([\w:]+)(?:\s*<[^{};]*>)?(?:\s+final)?\s*(:[^:{;][^{;]*)?$", hs)
+                # `[…](…) -> type {` / `auto f(…) const -> type {`: a body, not a brace initialiser
+                trailing = re.search(r"\)\s*(?:const\s*|mutable\s*|noexcept\s*)*->\s*[\w:<>,\s\*&]+$", hs) is not None
                 if in_init:
                     stack.append(("init", ""))
                     buf.append(c)
                 elif re.search(r"\benum\b[^;{}()]*$", hs):
+                    self.unclassified(header, self.line, True)
                     stack.append(("block", ""))
-                    buf = []
+                    reset()
                 elif mcls and "(" not in hs.split(mcls.group(1))[-1]:
-                    stack.append(("class", mcls.group(2)))
-                    buf = []
+                    self.unclassified(header, self.line, True)
+                    name = mcls.group(2)
+                    stack.append(("class", name))
+                    if mcls.group(3):
+                        bases = [re.sub(r"<.*$", "", norm(b)).split(" ")[-1].split("::")[-1]
+                                 for b in re.sub(r"<[^<>]*>", "", mcls.group(3)[1:]).split(",")]
+                        self.bases.setdefault(name.split("::")[-1], []).extend(b for b in bases if b)
+                    reset()
                 elif re.search(r"\bnamespace\b[^;{}()]*$", hs):
+                    self.unclassified(header, self.line, True)
                     stack.append(("namespace", ""))
-                    buf = []
-                elif (re.match(r"^\w+$", prevtok) and prevtok not in KEYWORDS_BLOCK) or prevtok in (">", "=", ",", "(", "{", "return"):
+                    reset()
+                elif not trailing and ((re.match(r"^\w+$", prevtok) and prevtok not in KEYWORDS_BLOCK)
+                                       or prevtok in (">", "=", ",", "(", "{", "return")):
                     # brace initialiser inside a declaration / expression
                     stack.append(("init", ""))
                     buf.append(c)
@@ -214,23 +279,26 @@ class Scanner:
                     # function body / lambda / control block: name of the function if recoverable
                     mf = re.search(r"([\w:~]+)\s*\([^;]*$", hs)
                     kind = "func" if self.innermost(stack) in ("namespace", "class") else "block"
+                    # a function definition may start with `static`; a lambda / control block inside a statement may not hide one
+                    self.unclassified(header, self.line, kind == "func")
                     stack.append((kind, mf.group(1) if (mf and kind == "func") else ""))
-                    buf = []
+                    reset()
             elif c == "}":
                 if not stack:
-                    self.problems.append(f"{self.rel}: unbalanced braces")
+                    self.problems.append(f"{self.rel}:{line}: unbalanced braces")
                     return
                 kind, _ = stack.pop()
                 if kind == "init":
                     buf.append(c)
                 else:
-                    buf = []
+                    self.unclassified("".join(buf), self.line, False)
+                    reset()
             elif c == ";":
                 if stack and stack[-1][0] == "init":
                     buf.append(c)
                 else:
                     self.statement("".join(buf), stack)
-                    buf = []
+                    reset()
             else:
                 buf.append(c)
             i += 1
@@ -238,7 +306,13 @@ class Scanner:
             self.problems.append(f"{self.rel}: {len(stack)} unclosed scope(s) at end of file")
 
 
-def scan(repo):
+def bare_types(ty):
+    """the class names a declared type mentions: `const std::vector<targets_iterator_t>&` -> {vector, targets_iterator_t}"""
+    return {w.split("::")[-1] for w in re.findall(r"[A-Za-z_][\w:]*", ty)} - {"const", "std", "mutable", "volatile"}
+
+
+def scan_full(repo):
+    """-> dict(entries, problems, aliases, lines): entries sorted and unique, lines[entry] = line of its declaration"""
     files = []
     for top in ("include", "src"):
         for root, _, names in os.walk(os.path.join(repo, top)):
@@ -247,15 +321,57 @@ def scan(repo):
                     files.append(os.path.join(root, fn))
     files.sort()
     aliases = collect_aliases(files)
-    entries, problems = [], []
+    entries, problems, lines, members, bases = [], [], {}, [], {}
     for f in files:
         rel = os.path.relpath(f, repo)
         sc = Scanner(rel, strip_code(open(f, errors="replace").read()), aliases)
         sc.run()
         entries += sc.entries
         problems += sc.problems
-    # cross-check with a plain token count: every `mutable` keyword outside lambdas must have produced an entry
-    return sorted(set(entries)), problems, aliases
+        members += sc.members
+        for k, v in sc.lines.items():
+            lines.setdefault(k, v)
+        for k, v in sc.bases.items():
+            bases.setdefault(k, []).extend(v)
+    # holders: classes with mutable members, closed under "derives from" and "has a member of that class"
+    bearing = {e[2].split("::")[-1] for e in entries if e[0] == "mutable"}
+    using = []
+    for f in files:
+        for m in re.finditer(r"\busing\s+(\w+)\s*=\s*([^;]+);", strip_code(open(f, errors="replace").read())):
+            using.append((m.group(1), m.group(2)))
+    holders = {}
+    changed = True
+    while changed:
+        changed = False
+        for name, rhs in using:
+            # containers / smart pointers of a bearing class only (a `std::variant` alias with the name of another class is not followed)
+            if name not in bearing and re.match(r"^\s*std::(vector|unique_ptr|shared_ptr|array|deque|list)\s*<", rhs) and \
+                    bare_types(rhs) & bearing:
+                bearing.add(name)
+                changed = True
+        for cls, bs in bases.items():
+            if cls not in bearing and any(b in bearing for b in bs):
+                bearing.add(cls)
+                changed = True
+        for (rel, scope, name, ty, line) in members:
+            hit = sorted(bare_types(ty) & bearing)
+            if hit:
+                key = ("holder", rel, scope, name, ty)
+                if key not in holders and not any(e[0] in ("mutable", "indirect") and e[1:4] == (rel, scope, name) for e in entries):
+                    holders[key] = line
+                cls = scope.split("::")[-1]
+                if cls not in bearing and cls != "-":
+                    bearing.add(cls)
+                    changed = True
+    for k, v in holders.items():
+        entries.append(k)
+        lines.setdefault(k, v)
+    return dict(entries=sorted(set(entries)), problems=problems, aliases=aliases, lines=lines, bearing=sorted(bearing))
+
+
+def scan(repo):
+    r = scan_full(repo)
+    return r["entries"], r["problems"], r["aliases"]
 
 
 if __name__ == "__main__":
